@@ -488,6 +488,12 @@ func recordsScenario(s *Sim, params map[string]string) {
 			}
 			for i := 0; i < t.Range("work", 1, 4) && !s.Failed(); i++ {
 				k := t.Range("work", 1, 5)
+				big := t.Intn("work", 6) == 0
+				if big {
+					// a request of several 64 KiB pages: size, checksum and
+					// count placeholders are patched across page boundaries
+					k = t.Range("work", 600, 2500)
+				}
 				type sub struct {
 					key, val []byte
 					hdr      []kafka.Header
@@ -500,6 +506,10 @@ func recordsScenario(s *Sim, params map[string]string) {
 				}
 				for j := 0; j < k; j++ {
 					sb := sub{key: keys[t.Intn("work", len(keys))], val: vals[t.Intn("work", len(vals))]}
+					if big && j == 0 {
+						// shifts every later field against the page grid
+						sb.val = bytes.Repeat([]byte("p"), t.Range("work", 1, 70000))
+					}
 					if sb.val != nil && len(sb.val) > 0 {
 						sb.val = append([]byte(fmt.Sprintf("a%di%dj%d|", a, i, j)), sb.val...)
 					}
